@@ -235,6 +235,25 @@ pub fn backup(t: Transport, src: &Path, o: Opts, excl: &[String], changes: Optio
     })
 }
 
+/// A backup during which `cb` is called with the apath of every entry as it is recorded (the
+/// source can be changed from there, underneath the running backup).
+pub fn backup_cb(t: Transport, src: &Path, o: Opts, cb: Arc<dyn Fn(&str) + Send + Sync>) -> Outcome<BackupStats> {
+    let src = src.to_path_buf();
+    run(move |monitor| {
+        block_on(async {
+            let archive = Archive::open(t).await.map_err(errstr)?;
+            let mut options = backup_opts(o, &[], None);
+            options.change_callback = Some(Box::new(move |ch: &EntryChange| {
+                cb(&ch.apath);
+                Ok(())
+            }) as conserve::ChangeCallback);
+            conserve::backup(&archive, &src, &options, monitor)
+                .await
+                .map_err(errstr)
+        })
+    })
+}
+
 pub fn sel(band: Option<u32>) -> BandSelectionPolicy {
     match band {
         Some(b) => BandSelectionPolicy::Specified(BandId::new(&[b])),
